@@ -54,7 +54,7 @@ KEYS = {
 ASSERT = {
   'gen':  {'p.c17': ['C17'], 'p.shape': ['C10']},
   'mv':   {'p.hash': ['C09'], 'p.copy': ['C02'], 'p.reload': ['C09', 'C11', 'C02'], 'p.shape': ['C10', 'C02'], 'p.strback': ['C03'], 'p.strshape': ['C10', 'C03'], 'p.attsame': ['C12']},
-  'play': {'p.hash': ['C09'], 'p.replayable': ['C03'], 'p.shape': ['C10']},
+  'play': {'p.hash': ['C09'], 'p.replayable': ['C03'], 'p.shape': ['C10'], 'p.gensame': ['C17', 'C12', 'C10', 'C01']},
   'null': {'p.nullhash': ['C09'], 'p.nullback': ['C09', 'C10']},
   'fen':  {'p.total': ['C11'], 'p.roundtrip': ['C11'], 'p.canon': ['C11']},
   'eval': {'p.mirror': ['C15'], 'p.bound': ['C15'], 'p.mirrorpub': ['C15', 'C16']},
@@ -64,6 +64,7 @@ ASSERT = {
   'time': {'p.ltclock': ['C08', 'C05'], 'p.ltmovetime': ['C08', 'C05'], 'p.indep': ['C08']},
   'go':   {'p.total': ['C07']},
   'gotime': {'p.ltclock': ['C08'], 'p.ltmovetime': ['C08']},
+  'prep': {'p.garbage': ['C07']},
   'gof':  {'p.total': ['C07'], 'p.faithful': ['C07']},
   'hashdiff': {'p.distinct': ['C09']},
   'ecache': {'p.keyexact': ['C16']},
@@ -421,6 +422,15 @@ def _dialog_protocol(v):
     return r or '-'
 
 
+def _dialog_no_info(v):
+    """a dialogue transcript without the unclassified `info string` lines (the messages of the go parser are judged on the `go` / `gof`
+    operations; extra informational output is not a property violation)"""
+    if v is None:
+        return None
+    r = ''.join(c for c in v if c != 'G')
+    return r or '-'
+
+
 # What each property reads from a compound answer.  A property is judged on the part of the answer it speaks about: C13 on
 # the move answered, C04 on the move and the principal variations, C05 on all of it (node and poll counts); C06/C05 on the
 # protocol lines of a dialogue, C07 on every line including the informational ones.
@@ -455,7 +465,7 @@ VIEWS = {
   ('gen', 'caps'): {'C17': _sorted_words}, ('gen', 'capsfilter'): {'C17': _sorted_words},
   ('mv', 'legal'): {'C01': _sorted_words, 'C10': _sorted_words},
   ('search', 'out'): {'C13': _search_view({'best'}), 'C04': _search_view({'best', 'pv'})},
-  ('dialog', 'out'): {'C06': _dialog_protocol, 'C05': _dialog_protocol},
+  ('dialog', 'out'): {'C06': _dialog_protocol, 'C05': _dialog_protocol, 'C07': _dialog_no_info, 'C03': _dialog_no_info},
 }
 
 
